@@ -136,11 +136,11 @@ func ruleBucketIndex(c *Ctx) {
 			if isByteSlice(st.Field(i).Type()) {
 				hasIdx = true
 			}
-			if strings.EqualFold(st.Field(i).Name(), "bucketSize") {
-				hasSize = true
+			if sl, isSl := st.Field(i).Type().Underlying().(*types.Slice); isSl && c.isEntryType(sl.Elem()) {
+				hasSize = true // the bucket storage: a slice of table entries next to the ring index
 			}
 		}
-		if hasIdx && hasSize && !strings.HasSuffix(strings.ToLower(n), "config") {
+		if hasIdx && hasSize {
 			T = nt
 		}
 	}
@@ -175,7 +175,7 @@ func ruleBucketIndex(c *Ctx) {
 					continue
 				}
 				good := false
-				for _, a := range fi.atomsWithSuffixFold("bucketsize") {
+				for _, a := range fi.atomsWithSuffix(".BucketSize") {
 					if fi.proveAt(v.addc(1).sub(linAtom(a)), b, nil) && fi.proveAt(v.scale(-1), b, nil) {
 						good = true
 					}
@@ -218,12 +218,7 @@ func (fi *FuncInfo) atomsWithSuffixFold(suffix string) []string {
 // ---------------------------------------------------------------- R-INIT-NOFAIL
 
 func ruleInitNoFail(c *Ctx) {
-	hashT := c.namedType(c.lz, "hash")
-	if hashT == nil {
-		c.fail("lz.hash.init", token.NoPos, "type hash not found")
-		return
-	}
-	fn := c.method(hashT, "init")
+	fn := c.roles().hashInit // by role: the (inputLen, hashBits) error method that allocates the entry table
 	if fn == nil || len(fn.Params) != 3 {
 		c.fail("lz.hash.init", token.NoPos, "hash.init(inputLen, hashBits) not found")
 		return
@@ -333,97 +328,97 @@ func ruleSortShort(c *Ctx) {
 				paths = b.Preds
 			}
 			for pi, pb := range paths {
-			pkey := key
-			if len(paths) > 1 {
-				pkey = fmt.Sprintf("%s:path#%d", key, pi+1)
-			}
-			vals := map[int64]int64{}
-			var stBlk *ssa.BasicBlock
-			for _, bb := range fn.Blocks {
-				if !(bb == pb || bb.Dominates(pb)) {
+				pkey := key
+				if len(paths) > 1 {
+					pkey = fmt.Sprintf("%s:path#%d", key, pi+1)
+				}
+				vals := map[int64]int64{}
+				var stBlk *ssa.BasicBlock
+				for _, bb := range fn.Blocks {
+					if !(bb == pb || bb.Dominates(pb)) {
+						continue
+					}
+					for _, in := range bb.Instrs {
+						st, ok := in.(*ssa.Store)
+						if !ok {
+							continue
+						}
+						ia, ok := st.Addr.(*ssa.IndexAddr)
+						if !ok || ia.X != sa {
+							continue
+						}
+						k, okK := constInt(ia.Index)
+						v, okV := constInt(st.Val)
+						if okK && okV {
+							vals[k] = v
+							stBlk = bb
+						}
+					}
+				}
+				perm := int64(len(vals)) == n
+				seen := map[int64]bool{}
+				for k, v := range vals {
+					if k < 0 || k >= n || v < 0 || v >= n || seen[v] {
+						perm = false
+					}
+					seen[v] = true
+				}
+				if !perm {
+					c.fail(pkey, r.Pos(), "Sort returns for a text of length %d without having stored a complete permutation into sa (stores found: %v): a reused sa buffer keeps stale entries", n, vals)
 					continue
 				}
-				for _, in := range bb.Instrs {
-					st, ok := in.(*ssa.Store)
-					if !ok {
-						continue
-					}
-					ia, ok := st.Addr.(*ssa.IndexAddr)
-					if !ok || ia.X != sa {
-						continue
-					}
-					k, okK := constInt(ia.Index)
-					v, okV := constInt(st.Val)
-					if okK && okV {
-						vals[k] = v
-						stBlk = bb
-					}
-				}
-			}
-			perm := int64(len(vals)) == n
-			seen := map[int64]bool{}
-			for k, v := range vals {
-				if k < 0 || k >= n || v < 0 || v >= n || seen[v] {
-					perm = false
-				}
-				seen[v] = true
-			}
-			if !perm {
-				c.fail(pkey, r.Pos(), "Sort returns for a text of length %d without having stored a complete permutation into sa (stores found: %v): a reused sa buffer keeps stale entries", n, vals)
-				continue
-			}
-			if n == 2 && stBlk != nil {
-				// (0,1) exactly under t[0] < t[1]
-				asc := vals[0] == 0
-				lessKnown, geKnown := false, false
-				for _, cd := range fi.condsAt(stBlk) {
-					cd = unNot(cd)
-					bo, ok := cd.V.(*ssa.BinOp)
-					if !ok || !isByteLoad(bo.X) || !isByteLoad(bo.Y) {
-						continue
-					}
-					i0 := byteLoadIndex(bo.X)
-					i1 := byteLoadIndex(bo.Y)
-					op := bo.Op
-					if i0 == 1 && i1 == 0 {
-						// swap to t[0] ? t[1]
-						switch op {
-						case token.LSS:
-							op = token.GTR
-						case token.GTR:
-							op = token.LSS
-						case token.LEQ:
-							op = token.GEQ
-						case token.GEQ:
-							op = token.LEQ
+				if n == 2 && stBlk != nil {
+					// (0,1) exactly under t[0] < t[1]
+					asc := vals[0] == 0
+					lessKnown, geKnown := false, false
+					for _, cd := range fi.condsAt(stBlk) {
+						cd = unNot(cd)
+						bo, ok := cd.V.(*ssa.BinOp)
+						if !ok || !isByteLoad(bo.X) || !isByteLoad(bo.Y) {
+							continue
 						}
-					} else if !(i0 == 0 && i1 == 1) {
-						continue
-					}
-					if !cd.True {
-						switch op {
-						case token.LSS:
-							op = token.GEQ
-						case token.GEQ:
-							op = token.LSS
-						case token.GTR:
-							op = token.LEQ
-						case token.LEQ:
-							op = token.GTR
+						i0 := byteLoadIndex(bo.X)
+						i1 := byteLoadIndex(bo.Y)
+						op := bo.Op
+						if i0 == 1 && i1 == 0 {
+							// swap to t[0] ? t[1]
+							switch op {
+							case token.LSS:
+								op = token.GTR
+							case token.GTR:
+								op = token.LSS
+							case token.LEQ:
+								op = token.GEQ
+							case token.GEQ:
+								op = token.LEQ
+							}
+						} else if !(i0 == 0 && i1 == 1) {
+							continue
+						}
+						if !cd.True {
+							switch op {
+							case token.LSS:
+								op = token.GEQ
+							case token.GEQ:
+								op = token.LSS
+							case token.GTR:
+								op = token.LEQ
+							case token.LEQ:
+								op = token.GTR
+							}
+						}
+						if op == token.LSS {
+							lessKnown = true
+						}
+						if op == token.GEQ {
+							geKnown = true
 						}
 					}
-					if op == token.LSS {
-						lessKnown = true
-					}
-					if op == token.GEQ {
-						geKnown = true
-					}
+					okOrd := (asc && lessKnown) || (!asc && geKnown)
+					c.check(okOrd, pkey+fmt.Sprintf(":order(%d,%d)", vals[0], vals[1]), r.Pos(), "order chosen by t[0] < t[1] (ties: the shorter suffix first)", "the two-byte shortcut does not store (0,1) exactly when t[0] < t[1] and (1,0) otherwise")
+					continue
 				}
-				okOrd := (asc && lessKnown) || (!asc && geKnown)
-				c.check(okOrd, pkey+fmt.Sprintf(":order(%d,%d)", vals[0], vals[1]), r.Pos(), "order chosen by t[0] < t[1] (ties: the shorter suffix first)", "the two-byte shortcut does not store (0,1) exactly when t[0] < t[1] and (1,0) otherwise")
-				continue
-			}
-			c.ok(pkey, r.Pos(), "complete permutation %v stored before returning", vals)
+				c.ok(pkey, r.Pos(), "complete permutation %v stored before returning", vals)
 			}
 		}
 	}
@@ -453,7 +448,6 @@ func byteLoadIndex(v ssa.Value) int64 {
 	}
 	return k
 }
-
 
 // edgesInfeasible: every edge into b is infeasible under the facts: its branch
 // condition's negation is provable at the predecessor (phi case splits allowed),
